@@ -143,8 +143,9 @@ class Rec:
 # data sets
 
 def make_data(rng, which):
-    n, m = (14, 6) if which == "A" else (12, 6)
-    X = rng.normal(size=(n, m)) * (1.0 if which == "A" else 2.0) + (0.0 if which == "A" else 0.3)
+    # A and C have the same shape (anything cached by shape must still be refreshed), B has fewer samples
+    n, m = (12, 6) if which == "B" else (14, 6)
+    X = rng.normal(size=(n, m)) * {"A": 1.0, "B": 2.0, "C": 0.6}[which] + {"A": 0.0, "B": 0.3, "C": -0.2}[which]
     X -= X.mean(axis=0)
     y = X @ rng.normal(size=m) + 0.1 * rng.normal(size=n)
     y -= y.mean()
@@ -351,11 +352,11 @@ def catalogue():
     return cat
 
 
-def est_trace(tid, name, entry, hist, dataA, dataB, layout):
+def est_trace(tid, name, entry, hist, dataA, dataB, layout, dataC=None):
     """Replay of one TLC-enumerated history on one catalogue class."""
     factory, ymode, fit, ops = entry
     rec = Rec()
-    data = {"A": dataA, "B": dataB}
+    data = {"A": dataA, "B": dataB, "C": dataC}
     fit_out = (lambda ret: []) if "switch" in name else None        # behaviour-only entries: see catalogue()
 
     base_layout = "f32" if layout == "f32" else "C"      # single-precision inputs have their own registers
@@ -518,11 +519,11 @@ def gen(args):
     wid, jobs, sd = args
     cat = catalogue()
     rng = np.random.default_rng([sd, 909])
-    dataA, dataB = make_data(rng, "A"), make_data(rng, "B")
+    dataA, dataB, dataC = make_data(rng, "A"), make_data(rng, "B"), make_data(rng, "C")
     out = []
     for (kind, name, hist, layout, tag) in jobs:
         if kind == "est":
-            out.append(est_trace(tag, name, cat[name], hist, dataA, dataB, layout))
+            out.append(est_trace(tag, name, cat[name], hist, dataA, dataB, layout, dataC))
         else:
             out.extend(func_traces(rng, dataA, layout, tag))
     return out
@@ -568,10 +569,10 @@ def run(tier):
         rep.cov["parts"]["Lifecycle[%s] (mechanism found in the code)" % v] = "violates %s as expected" % rr.get("violated")
     rep.cov["exhaustive"] = True
     r = core.run_tlc("LifecycleHistories.tla", cfg="mc/LifecycleHistories.cfg", workers=1)
-    rep.add_mc("LifecycleHistories: every history of <=3 fits over {A,B} x {y,-} x {small,large}", r)
+    rep.add_mc("LifecycleHistories: every history of <=3 fits over {A,B,C} x {y,-} x {small,large} (A and C of equal shape)", r)
     hists = [e["hist"] for e in r["records"] if e.get("k") == "H"]
-    if len(hists) != 584:
-        raise core.Machinery("expected 584 histories, got %d" % len(hists))
+    if len(hists) != 1884:
+        raise core.Machinery("expected 1884 histories, got %d" % len(hists))
     names = list(catalogue())
     jobs = []
     rng = np.random.default_rng([core.seed(), 910])
